@@ -273,6 +273,7 @@ pub trait TooDeeOpsMut<T> : TooDeeOps<T> + IndexMut<usize,Output=[T]>  + IndexMu
     /// ```
     fn swap_rows(&mut self, mut r1: usize, mut r2: usize) {
         if r1 == r2 {
+            assert!(r1 < self.num_rows());
             return;
         }
         if r2 < r1 {
